@@ -14,6 +14,9 @@ CHECKS = {
  'C08': ('bounded-exhaustive enumeration over the literal alphabet + proptest templates against a hand-written core-schema matcher (must/may outcomes)',
          'Every string of length <= 4 (quick) / <= 5 (thorough) over the 36 characters that occur in core-schema literals x 16 (style, tag) pairs through the resolver API, every string of length <= 3 / <= 4 x 12 pairs through load_from_str of a rendered document, plus boundary-number and word templates; borrowed vs owned resolvers compared.',
          'f64::from_str is trusted for the value of an accepted float literal; "within 64 bits" read as fits-i64 (I2).', '5 C08'),
+ 'C09': ('round-trip oracle (load . emit = id, emit . load . emit = emit) over bounded-exhaustive strings in four positions and proptest prop_recursive value trees',
+         'Every string of length <= 3 (quick) / <= 4 (thorough) over a 30-symbol alphabet as root, sequence item, mapping key and mapping value under the 4 emitter settings, plus 10^5 / 2*10^6 generated value trees (boundary numbers, special floats, Unicode and control characters, >1024-char keys, collection keys, depth <= 5).',
+         'Domain excludes BadValue / Alias / Representation nodes (I9); equality is the library == plus variant equality.', '5 C09'),
  'C10': ('differential testing across six Input back-ends over bounded-exhaustive and proptest-generated inputs',
          'C01 spaces + exhaustive scope with CR / multi-byte characters + block scalars under indentation 0..140: (event, span) lists and first error identical on StrInput, BufferedInput and TestInput<8,16,64,128>.',
          'TestInput replicates BufferedInput semantics with another capacity (>= 8); differential only (paired with the model-based checks).', '5 C10'),
